@@ -192,6 +192,19 @@ impl<K: HKey> Session<K> {
                     Err(e) => format!("err {}", classify(&e)),
                 }
             }
+            // the plain entry point: `Cas::open` applies the integrity gate itself and drops the stats
+            ["openplain"] => {
+                if self.cas.is_some() { return "already-open-in-worker".into(); }
+                match Cas::<K>::open(&self.dir, config_full(&self.cfgline)) {
+                    Ok(cas) => {
+                        if cas.root_path() != self.dir.as_path() { return "err rootpath".into(); }
+                        self.cas = Some(cas);
+                        self.stats = None;
+                        "ok plain".into()
+                    }
+                    Err(e) => format!("err {}", classify(&e)),
+                }
+            }
             // a second handle on the same directory while the first is alive (C11)
             ["open2"] => match Cas::<K>::open_with_recover(&self.dir, config_full(&self.cfgline)) {
                 Ok(_) => "ok second-handle".into(),
